@@ -52,11 +52,11 @@ Proof.
 Qed.
 
 (* the readable form of the two filters *)
-Lemma admits_spec l s :
-  admits l s = true <->
+Lemma allows_spec l s :
+  allows l s = true <->
   (s_peer s = [] \/ s_peer s = l_remote l) /\ (s_tpt s = 0 \/ s_tpt s = l_tpt l).
 Proof.
-  unfold admits. rewrite andb_true_iff, !negb_true_iff, !andb_false_iff, !negb_false_iff.
+  unfold allows. rewrite andb_true_iff, !negb_true_iff, !andb_false_iff, !negb_false_iff.
   rewrite Nat.eqb_eq, !Z.eqb_eq, bytes_eqb_spec.
   assert (length (s_peer s) = 0%nat <-> s_peer s = []) as -> by (destruct (s_peer s); cbn; split; congruence).
   tauto.
@@ -70,7 +70,7 @@ Proof. intros [E1 E2]. unfold side_sid. rewrite E1, E2. apply session_id_sym. Qe
 Lemma matched_iff la lb a b :
   ends_of_one_link la lb -> wf_sol a -> wf_sol b ->
   (matched la a lb b = true <->
-   s_pid a = s_pid b /\ s_ctx a = s_ctx b /\ admits la a = true /\ admits lb b = true).
+   s_pid a = s_pid b /\ s_ctx a = s_ctx b /\ allows la a = true /\ allows lb b = true).
 Proof.
   intros E Wa Wb. unfold matched, sol_hash. rewrite (ends_same_sid la lb E).
   rewrite !andb_true_iff, sbytes_eqb_spec, (protocol_hash_same_sid _ _ _ _ _ Wa Wb). tauto.
@@ -113,7 +113,7 @@ Qed.
 
 Lemma local_hashes_in l sols h :
   In h (local_hashes l sols) <->
-  exists s, In s sols /\ admits l s = true /\ sol_hash (side_sid l) s = h.
+  exists s, In s sols /\ allows l s = true /\ sol_hash (side_sid l) s = h.
 Proof.
   unfold local_hashes. rewrite in_map_iff. split.
   - intros [s [E H]]. apply filter_In in H as [H1 H2]. exists s. auto.
@@ -123,15 +123,15 @@ Qed.
 Lemma resolve_from_in l h : forall sols k i,
   In i (resolve_from l h k sols) <->
   exists s, (k <= i)%nat /\ nth_error sols (i - k) = Some s /\
-            admits l s = true /\ sol_hash (side_sid l) s = h.
+            allows l s = true /\ sol_hash (side_sid l) s = h.
 Proof.
   induction sols as [|s r IH]; intros k i; cbn [resolve_from].
   - split; [intros []|]. intros [s [_ [H _]]]. destruct (i - k)%nat; discriminate.
   - assert (Step : In i (resolve_from l h (S k) r) <->
                    exists s0, (k < i)%nat /\ nth_error r (i - S k) = Some s0 /\
-                              admits l s0 = true /\ sol_hash (side_sid l) s0 = h).
+                              allows l s0 = true /\ sol_hash (side_sid l) s0 = h).
     { rewrite IH. split; intros [s0 [A B]]; exists s0; split; auto; lia. }
-    destruct (admits l s && sbytes_eqb (sol_hash (side_sid l) s) h) eqn:C.
+    destruct (allows l s && sbytes_eqb (sol_hash (side_sid l) s) h) eqn:C.
     + apply andb_true_iff in C as [C1 C2]. apply sbytes_eqb_spec in C2.
       cbn [In]. rewrite Step. split.
       * intros [<-|[s0 [A [B D]]]].
@@ -152,7 +152,7 @@ Qed.
 
 Lemma resolve_match_in l sols h i :
   In i (resolve_match l sols h) <->
-  exists s, nth_error sols i = Some s /\ admits l s = true /\ sol_hash (side_sid l) s = h.
+  exists s, nth_error sols i = Some s /\ allows l s = true /\ sol_hash (side_sid l) s = h.
 Proof.
   unfold resolve_match. rewrite resolve_from_in. rewrite Nat.sub_0_r.
   split; intros [s H]; exists s; [tauto|]. split; [lia|tauto].
